@@ -51,3 +51,9 @@ add("C18", "Hypothesis-generated report pairs and findings lists, rendered outpu
     "around the 10-row cut-off, are rendered in text and Markdown (1 in 8 through report_command with files on disk); the tolerant "
     "row parser recovers every figure and annotation, which must equal the stored numbers / exact differences.",
     "trusts the row parsers in vf/props/c18.py; names are plain identifiers; locale C.UTF-8")
+
+add("C16", "bounded-exhaustive enumeration of short texts per language + Hypothesis texts and corpus slices, reference = Pygments' own offsets with independent line/column arithmetic",
+    "Every string of length <= 4 (thorough 5) over 19 symbols and every string of length <= 3 (thorough 4) over exotic line "
+    "separators is lexed in all 7 languages with both comment settings and compared token by token (kind, text, line, column) with "
+    "Pygments' raw offset stream; location_to_index must invert every position; corpus files whole / sliced / CRLF on top.",
+    "trusts Pygments' (offset, type, text) stream as the source text's tokenisation and str.count/rfind for line arithmetic")
